@@ -107,7 +107,8 @@ Definition sphere_BH (f : field) (mu0 : T) (o : V3) (d : T) (P : V3) : V3 :=
    current_polyline_Hfield (one segment, one observer) behind the zero-length mask of
    BHJM_current_polyline.  Returns the branch taken as well:
      0 zero-length segment, 1 on-line mask (norm_o4 < 1e-15), 2 foot beyond p1 side with
-     |.|>1 (mask2), 3 mask3, 4 mask4 (foot between the end points). *)
+     |.|>1 (mask2), 3 mask3, 4 mask4 (foot between the end points).
+   As of /repo ed8562c the two foot-beyond-an-end cases use the cancellation-free deltaSin_beyond. *)
 Definition polyline_H_br (o p1 p2 : V3) (cur : T) : (nat * V3) :=
   if veqb p1 p2 then (0%nat, zero3) else
   let n12 := vnorm (vsub p1 p2) in
@@ -130,7 +131,9 @@ Definition polyline_H_br (o p1 p2 : V3) (cur : T) : (nat * V3) :=
   let m2 := (c1 <? n41) && (n42 <? n41) in
   let m3 := (c1 <? n42) && (n41 <? n42) in
   let br := if m2 then 2%nat else if m3 then 3%nat else 4%nat in
-  let dS := if m2 then nabs N (s1 - s2) else if m3 then nabs N (s2 - s1) else nabs N (s1 + s2) in
+  (* deltaSin_beyond = norm_o4**2 * (norm_41 + norm_42) / (norm_o1 * norm_o2 * (norm_41 * norm_o2 + norm_42 * norm_o1)) *)
+  let dSb := sq no4 * (n41 + n42) / (no1 * no2 * (n41 * no2 + n42 * no1)) in
+  let dS := if m2 then dSb else if m3 then dSb else nabs N (s1 + s2) in
   let comp (e : T) := dS / no4 * e / n12 * cur / (c4 * cpi) in
   let '(e0, e1, e2) := eB in
   (br, (comp e0, comp e1, comp e2)).
@@ -151,7 +154,7 @@ Definition circle_branch_of (o : V3) (d : T) : circle_branch :=
   let r := nsqrt N (sq x + sq y) in
   let r0 := nabs N (d / c2) in
   let m1 := r0 =? c0 in
-  let m2 := (nabs N (r - r0) <? e15 * r0) && (z =? c0) in
+  let m2 := (nabs N (r - r0) <? e15 * r0) && (nabs N z <? e15 * r0) in
   let m3 := r =? c0 in
   if m3 && negb m1 then COnAxis
   else if m1 || m2 || m3 then CZero
